@@ -309,10 +309,10 @@ func Progress() { progress.Add(1) }
 // watchdog turns "the exploration exhausts memory" and "the exploration stopped making progress"
 // into a reported violation that names the cases in flight, instead of a killed process without
 // a report. Limits are far away from anything the harnesses need on the unchanged tree:
-// VERIF_MEM_LIMIT_MB (default 24576) of live Go heap (measured after a forced collection), VERIF_STALL_S (default 2400) without a
+// VERIF_MEM_LIMIT_MB (default 12288) of live Go heap (measured after a forced collection), VERIF_STALL_S (default 2400) without a
 // finished case, scheduler execution or Eval while a ParallelFor index is in flight.
 func (r *Report) watchdog() {
-	memLimit := uint64(24576) << 20
+	memLimit := uint64(12288) << 20
 	if v, err := strconv.ParseUint(os.Getenv("VERIF_MEM_LIMIT_MB"), 10, 64); err == nil && v > 0 {
 		memLimit = v << 20
 	}
